@@ -20,10 +20,21 @@ Plan gen_c23(sk::Rng& r, Tier) {
     for (int i = 0; i < n; ++i) {
         Op op;
         const auto c = r.below(100);
-        if (c < 55) { op.k = "request"; op.a = {static_cast<std::int64_t>(r.below(3)), r.pick<std::int64_t>({0, 0, 1, 1, 2, 3, 4})}; }   // peer, chunk (0..2 held, 3 unknown, 4 expired)
-        else if (c < 80) { op.k = "ack"; op.a = {static_cast<std::int64_t>(r.below(3)), static_cast<std::int64_t>(r.below(3)), static_cast<std::int64_t>(r.below(2))}; }
+        if (c < 55) { op.k = "request"; op.a = {static_cast<std::int64_t>(r.below(3)), r.pick<std::int64_t>({0, 0, 1, 1, 2, 3, 4, 5, 6})}; }   // peer, chunk (0..4 held, 5 unknown, 6 expired)
+        else if (c < 80) { op.k = "ack"; op.a = {static_cast<std::int64_t>(r.below(3)), static_cast<std::int64_t>(r.below(5)), static_cast<std::int64_t>(r.below(2))}; }
         else { op.k = "wait"; op.a = {r.pick<std::int64_t>({50, 400, 1100, 2500, 6000, 31000})}; }
         p.ops.push_back(op);
+    }
+    if (r.chance(1, 3)) {
+        // staggered transfers: a second upload starts shortly before the first one times out, then the peer asks for more
+        const std::int64_t peer = static_cast<std::int64_t>(r.below(3)), t = p.knobs["timeout"] * 1000;
+        std::vector<Op> tail;
+        auto req = [&](std::int64_t k) { Op o; o.k = "request"; o.a = {peer, k}; tail.push_back(o); };
+        auto wait = [&](std::int64_t ms) { Op o; o.k = "wait"; o.a = {ms}; tail.push_back(o); };
+        wait(t + 3000);
+        req(0); wait(t * 2 / 3); req(1); wait(t / 2 + 300);
+        req(2); req(3); req(4); req(0);
+        p.ops.insert(p.ops.end(), tail.begin(), tail.end());
     }
     return p;
 }
@@ -44,10 +55,10 @@ void exec_c23(const Plan& p, Ctx& ctx) {
     for (int i = 0; i < npeers; ++i) if (rig.add_peer(static_cast<std::uint8_t>(0x71 + i)) < 0) { ctx.violate("C23.setup_failed", "scripted handshake failed"); rig.stop(); return; }
     auto chunk_id = [](int k) { return make_id(static_cast<std::uint8_t>(0x20 + k), 0x81); };
     rig.node.run([&](en::Node& n) {
-        for (int k = 0; k < 3; ++k) n.store_chunk(chunk_id(k), make_payload(200 + static_cast<std::size_t>(k) * 50, 700 + static_cast<std::uint64_t>(k)), seconds(3600));
-        n.store_chunk(chunk_id(4), make_payload(64, 777), seconds(1));
+        for (int k = 0; k < 5; ++k) n.store_chunk(chunk_id(k), make_payload(200 + static_cast<std::size_t>(k) * 50, 700 + static_cast<std::uint64_t>(k)), seconds(3600));
+        n.store_chunk(chunk_id(6), make_payload(64, 777), seconds(1));
     });
-    sk::sleep_ns(1500 * kMs);  // chunk 4 is expired from here on
+    sk::sleep_ns(1500 * kMs);  // chunk 6 is expired from here on
 
     // per peer: transfers the peer has received and not yet acknowledged, with the time the CHUNK frame was seen
     struct Transfer { int chunk; std::int64_t seen_at; };
@@ -62,8 +73,8 @@ void exec_c23(const Plan& p, Ctx& ctx) {
             const auto& m = peer.received[consumed[static_cast<std::size_t>(pi)]];
             if (auto* ch = std::get_if<pr::ChunkPayload>(&m.payload)) {
                 int k = -1;
-                for (int q = 0; q < 5; ++q) if (ch->chunk_id == chunk_id(q)) k = q;
-                if (k == 3 || k == 4) ctx.violate("C23.unservable_chunk_served", fmt("a CHUNK frame was sent for %s chunk", k == 3 ? "an unknown" : "an expired"));
+                for (int q = 0; q < 7; ++q) if (ch->chunk_id == chunk_id(q)) k = q;
+                if (k == 5 || k == 6) ctx.violate("C23.unservable_chunk_served", fmt("a CHUNK frame was sent for %s chunk", k == 5 ? "an unknown" : "an expired"));
                 outstanding[static_cast<std::size_t>(pi)].push_back({k, peer.received_at[consumed[static_cast<std::size_t>(pi)]]});
                 ctx.probe("chunk_frames_received");
             } else if (auto* a = std::get_if<pr::AcknowledgePayload>(&m.payload)) {
@@ -79,6 +90,10 @@ void exec_c23(const Plan& p, Ctx& ctx) {
             std::unique_lock<std::recursive_mutex> lock(n.scheduler_mutex_);
             active = n.active_uploads_.size();
             per = {n.active_uploads_per_peer_.begin(), n.active_uploads_per_peer_.end()};
+            // what counts is the number of transfers really in flight per peer, not only the node's own counter
+            std::map<std::string, std::size_t> real;
+            for (const auto& entry : n.active_uploads_) ++real[en::peer_id_to_string(entry.second.peer_id)];
+            for (auto& [k, v] : real) if (v > per[k]) { per[k] = v; ctx.probe("slot_counter_below_transfers_in_flight"); }
             peak = n.peak_active_uploads_.load();
         });
         if (parallel != 0 && (active > parallel || peak > parallel))
@@ -128,11 +143,11 @@ void exec_c23(const Plan& p, Ctx& ctx) {
             pr::Message m{};
             m.type = pr::MessageType::Request;
             m.payload = pr::RequestPayload{chunk_id(k), peer.ident.id};
-            if (k >= 3) ++naks_expected[static_cast<std::size_t>(pi)];
+            if (k >= 5) ++naks_expected[static_cast<std::size_t>(pi)];
             if (!rig.send(pi, m) || !rig.barrier(pi)) { ctx.violate("C23.session_lost", "session of a requesting peer broke: " + peer.conn.last_error); break; }
             absorb(pi);
-            if (k >= 3 && naks_seen[static_cast<std::size_t>(pi)] < naks_expected[static_cast<std::size_t>(pi)])
-                ctx.violate("C23.no_negative_ack", fmt("request for %s chunk was not answered with a negative acknowledgement", k == 3 ? "an unknown" : "an expired"));
+            if (k >= 5 && naks_seen[static_cast<std::size_t>(pi)] < naks_expected[static_cast<std::size_t>(pi)])
+                ctx.violate("C23.no_negative_ack", fmt("request for %s chunk was not answered with a negative acknowledgement", k == 5 ? "an unknown" : "an expired"));
             check_limits("after request");
         } else if (op.k == "ack") {
             const int k = static_cast<int>(op.at(1));
